@@ -1,5 +1,6 @@
 import Gsp.Model.Mz
 import Gsp.Lemmas.Rdf
+import Gsp.Lemmas.RdfChain
 /-! C01 — merklized entries are exactly the document's facts. Theorems about M2 (`Gsp.Rdf`) and the merklizer wrapper. -/
 namespace Gsp.Props.C01
 open Gsp Gsp.Rdf
@@ -240,6 +241,48 @@ theorem key_shape (ds : Dataset) (rel : Rel) (ix : Idx) (idx : Option Nat) (key 
     ∃ q up, getQuad ds ix = .ok q ∧ key = up ++ [PathPart.s q.p] ++ idxPart idx :=
   path_shape ds rel ix idx key h
 
+/-! ### the string parts of a key are the expanded property IRIs along the unique reference chain -/
+
+/-- **Path = property IRIs from the top-level node down to the field.** For a dataset whose graph names are distinct
+    (they are the keys of a Go map) and that merklizes successfully, the i-th entry belongs to the i-th literal/IRI
+    quad (graphs in sorted order), and its key, positions erased, is `ps ++ [p]`: `p` the quad's own predicate and
+    `ps` the predicates of the chain of quads through which the quad's subject is reached from a top-level node —
+    each link being the node's *unique* referrer (`referrer_unique`). No part is invented, dropped or reordered. -/
+theorem entries_pred_chain (canon : String → Option String) (p : Nat) (ds : Dataset) (es : List Entry)
+    (hnd : (names ds).Nodup) (h : entries canon p ds = .ok es) :
+    AllPairs (fun e ix => ∃ q ps, getQuad ds ix = .ok q ∧ RefChain ds ix ps ∧ strs e.key = ps ++ [q.p])
+      es (valueIdxsGraphs (sortedGraphs ds)) := by
+  unfold entries at h
+  split at h
+  · simp at h
+  · split at h
+    · simp at h
+    · split at h
+      · simp at h
+      · rename_i rel hrel
+        refine AllPairs.imp ?_ (entriesGraphs_keys canon p ds rel _ es h)
+        rintro e ix ⟨idx, hp⟩
+        exact path_refChain ds rel hnd hrel ix idx e.key hp
+
+/-- what a link of the chain is: when `findParent` succeeds for a quad, the quads referring to the node it
+    describes (`referrers`: same-graph quads with that node as object, else quads anywhere whose object is the
+    quad's graph node) are none (top level) or exactly the one returned -/
+theorem referrer_unique (ds : Dataset) (self : Idx) (q : Quad) (g : String) (qs : List Quad) (r : Option Idx)
+    (hg : graphName q = .ok g) (hl : ds.lookup g = some qs) (h : findParent ds self q = .ok r) :
+    referrers ds self q g qs = r.toList :=
+  findParent_spec ds self q g qs r hg hl h
+
+/-- membership in the scan that `referrers` is made of: exactly the other quads of the graph whose object is the node -/
+theorem referrers_scan (g : String) (self : Idx) (key : Ref) (qs : List Quad) (ix : Idx) :
+    ix ∈ scanGraph g self key qs 0 ↔ ∃ j q, qs[j]? = some q ∧ ix = (g, j) ∧ ix ≠ self ∧ q.o.ref? = some key := by
+  simpa using mem_scanGraph g self key qs 0 ix
+
+/-- the parent map used by the walk is `findParent`, quad by quad -/
+theorem parent_map_spec (ds : Dataset) (rel : Rel) (hnd : (names ds).Nodup) (h : newRelationship ds = .ok rel)
+    (g : String) (k : Nat) (q : Quad) (hq : getQuad ds (g, k) = .ok q) :
+    ∃ r, findParent ds (g, k) q = .ok r ∧ rel.parents.lookup (g, k) = r :=
+  parents_spec ds rel hnd h g k q hq
+
 -- non-vacuity: the documents probed against the real code
 deriving instance DecidableEq for Except
 def I (v : String) : Ref := ⟨.iri, v⟩
@@ -260,5 +303,14 @@ example : (entries noCanon 7 [("@default", [
     ⟨I "a", "items", .blank "_:b0", none⟩, ⟨I "a", "items", .blank "_:b1", none⟩,
     ⟨B "_:b0", "n", .lit "1" "s", none⟩, ⟨B "_:b1", "n", .lit "2" "s", none⟩ ])]).map (·.map (·.key)) =
   .ok [[.s "tags", .i 0], [.s "tags", .i 1], [.s "items", .i 0, .s "n"], [.s "items", .i 1, .s "n"]] := by decide
+
+/-- a reference chain of length one exists in that dataset: quad 4 (`_:b0 n 1`) is reached through quad 2 (`items`) -/
+example : RefChain [("@default", [
+    ⟨I "a", "tags", .lit "a" "s", none⟩, ⟨I "a", "tags", .lit "b" "s", none⟩,
+    ⟨I "a", "items", .blank "_:b0", none⟩, ⟨I "a", "items", .blank "_:b1", none⟩,
+    ⟨B "_:b0", "n", .lit "1" "s", none⟩, ⟨B "_:b1", "n", .lit "2" "s", none⟩ ])] ("@default", 4) ([] ++ ["items"]) :=
+  RefChain.step _ ⟨B "_:b0", "n", .lit "1" "s", none⟩ ("@default", 2) ⟨I "a", "items", .blank "_:b0", none⟩ []
+    (by decide) (by decide) (by decide)
+    (RefChain.top _ ⟨I "a", "items", .blank "_:b0", none⟩ (by decide) (by decide))
 
 end Gsp.Props.C01
